@@ -127,9 +127,13 @@ impl FilePersist {
     /// Create a new `FilePersist` instance
     pub fn new(config: PersistConfig) -> StorageResult<Self> {
         // Create directory structure
+        #[cfg(inputlayer_verif)]
+        crate::verif_hooks::fs_point("persist.new.mkdir:pre");
         fs::create_dir_all(&config.path)?;
         fs::create_dir_all(config.path.join("shards"))?;
         fs::create_dir_all(config.path.join("batches"))?;
+        #[cfg(inputlayer_verif)]
+        crate::verif_hooks::fs_point("persist.new.mkdir:post");
 
         let wal = PersistWal::new(config.path.join("wal"))?;
 
@@ -270,7 +274,11 @@ impl FilePersist {
                 if path.extension().and_then(|s| s.to_str()) == Some("parquet")
                     && !referenced.contains(&path)
                 {
+                    #[cfg(inputlayer_verif)]
+                    crate::verif_hooks::fs_point("persist.orphans.unlink_batch:pre");
                     let _ = fs::remove_file(&path);
+                    #[cfg(inputlayer_verif)]
+                    crate::verif_hooks::fs_point("persist.orphans.unlink_batch:post");
                     removed += 1;
                 }
                 // Also clean up stale temp files from interrupted atomic writes
@@ -279,7 +287,11 @@ impl FilePersist {
                     .and_then(|s| s.to_str())
                     .is_some_and(|ext| ext == "tmp")
                 {
+                    #[cfg(inputlayer_verif)]
+                    crate::verif_hooks::fs_point("persist.orphans.unlink_tmp:pre");
                     let _ = fs::remove_file(&path);
+                    #[cfg(inputlayer_verif)]
+                    crate::verif_hooks::fs_point("persist.orphans.unlink_tmp:post");
                     removed += 1;
                 }
             }
@@ -287,7 +299,11 @@ impl FilePersist {
 
         if removed > 0 {
             eprintln!("[persist] Cleaned up {removed} orphaned batch file(s)");
+            #[cfg(inputlayer_verif)]
+            crate::verif_hooks::fs_point("persist.orphans.dirsync:pre");
             sync_directory(&batches_dir);
+            #[cfg(inputlayer_verif)]
+            crate::verif_hooks::fs_point("persist.orphans.dirsync:post");
         }
     }
 
@@ -325,6 +341,8 @@ impl FilePersist {
             .map_err(|e| StorageError::Other(format!("Failed to serialize shard metadata: {e}")))?;
 
         // Write to temp file
+        #[cfg(inputlayer_verif)]
+        crate::verif_hooks::fs_point("persist.meta.tmpwrite:pre");
         if let Err(e) = fs::write(&tmp_path, &content) {
             eprintln!(
                 "[persist] ERROR save_shard_meta: path={}, parent_exists={}, error={}",
@@ -334,18 +352,28 @@ impl FilePersist {
             );
             return Err(e.into());
         }
+        #[cfg(inputlayer_verif)]
+        crate::verif_hooks::fs_point("persist.meta.tmpwrite:post");
 
         // Sync to disk before rename
+        #[cfg(inputlayer_verif)]
+        crate::verif_hooks::fs_point("persist.meta.fsync:pre");
         if let Err(e) = fs::File::open(&tmp_path).and_then(|f| f.sync_all()) {
             let _ = fs::remove_file(&tmp_path);
             return Err(e.into());
         }
+        #[cfg(inputlayer_verif)]
+        crate::verif_hooks::fs_point("persist.meta.fsync:post");
 
         // Atomic rename
+        #[cfg(inputlayer_verif)]
+        crate::verif_hooks::fs_point("persist.meta.rename:pre");
         if let Err(e) = fs::rename(&tmp_path, &final_path) {
             let _ = fs::remove_file(&tmp_path);
             return Err(e.into());
         }
+        #[cfg(inputlayer_verif)]
+        crate::verif_hooks::fs_point("persist.meta.rename:post");
 
         Ok(())
     }
@@ -539,12 +567,20 @@ impl PersistBackend for FilePersist {
         // Step 3: Delete old batch files LAST (safe - metadata no longer references them)
         // If we crash here, we have orphaned files but no data loss.
         for batch_ref in &old_batches {
+            #[cfg(inputlayer_verif)]
+            crate::verif_hooks::fs_point("persist.compact.unlink_old:pre");
             let _ = fs::remove_file(&batch_ref.path);
+            #[cfg(inputlayer_verif)]
+            crate::verif_hooks::fs_point("persist.compact.unlink_old:post");
         }
 
         // Sync batches directory to ensure deletions are durable
         if !old_batches.is_empty() {
+            #[cfg(inputlayer_verif)]
+            crate::verif_hooks::fs_point("persist.compact.dirsync:pre");
             sync_directory(&self.config.path.join("batches"));
+            #[cfg(inputlayer_verif)]
+            crate::verif_hooks::fs_point("persist.compact.dirsync:post");
         }
 
         Ok(())
@@ -643,12 +679,20 @@ impl PersistBackend for FilePersist {
             let mut deleted_any = false;
             for batch_ref in &state.meta.batches {
                 if batch_ref.path.exists() {
+                    #[cfg(inputlayer_verif)]
+                    crate::verif_hooks::fs_point("persist.delete.unlink_batch:pre");
                     let _ = fs::remove_file(&batch_ref.path);
+                    #[cfg(inputlayer_verif)]
+                    crate::verif_hooks::fs_point("persist.delete.unlink_batch:post");
                     deleted_any = true;
                 }
             }
             if deleted_any {
+                #[cfg(inputlayer_verif)]
+                crate::verif_hooks::fs_point("persist.delete.dirsync_batches:pre");
                 sync_directory(&self.config.path.join("batches"));
+                #[cfg(inputlayer_verif)]
+                crate::verif_hooks::fs_point("persist.delete.dirsync_batches:post");
             }
         }
 
@@ -669,8 +713,16 @@ impl PersistBackend for FilePersist {
             .join("shards")
             .join(format!("{}.json", sanitize_name(shard)));
         if meta_path.exists() {
+            #[cfg(inputlayer_verif)]
+            crate::verif_hooks::fs_point("persist.delete.unlink_meta:pre");
             let _ = fs::remove_file(&meta_path);
+            #[cfg(inputlayer_verif)]
+            crate::verif_hooks::fs_point("persist.delete.unlink_meta:post");
+            #[cfg(inputlayer_verif)]
+            crate::verif_hooks::fs_point("persist.delete.dirsync_shards:pre");
             sync_directory(&self.config.path.join("shards"));
+            #[cfg(inputlayer_verif)]
+            crate::verif_hooks::fs_point("persist.delete.dirsync_shards:post");
         }
 
         Ok(())
@@ -749,6 +801,8 @@ fn write_updates_parquet(path: &PathBuf, updates: &[Update]) -> StorageResult<()
     // is never left in a corrupt half-written state.
     let tmp_path = path.with_extension("parquet.tmp");
 
+    #[cfg(inputlayer_verif)]
+    crate::verif_hooks::fs_point("persist.batch.tmpwrite:pre");
     let file = match fs::File::create(&tmp_path) {
         Ok(f) => f,
         Err(e) => {
@@ -769,7 +823,13 @@ fn write_updates_parquet(path: &PathBuf, updates: &[Update]) -> StorageResult<()
             ArrowWriter::try_new(file, full_schema, Some(props)).map_err(StorageError::Parquet)?;
         writer.write(&batch).map_err(StorageError::Parquet)?;
         writer.close().map_err(StorageError::Parquet)?;
+    #[cfg(inputlayer_verif)]
+    crate::verif_hooks::fs_point("persist.batch.tmpwrite:post");
+        #[cfg(inputlayer_verif)]
+        crate::verif_hooks::fs_point("persist.batch.fsync:pre");
         fs::File::open(&tmp_path)?.sync_all()?;
+        #[cfg(inputlayer_verif)]
+        crate::verif_hooks::fs_point("persist.batch.fsync:post");
         Ok(())
     })();
 
@@ -780,7 +840,11 @@ fn write_updates_parquet(path: &PathBuf, updates: &[Update]) -> StorageResult<()
     }
 
     // Atomic rename (POSIX guarantees atomicity)
+    #[cfg(inputlayer_verif)]
+    crate::verif_hooks::fs_point("persist.batch.rename:pre");
     fs::rename(&tmp_path, path)?;
+    #[cfg(inputlayer_verif)]
+    crate::verif_hooks::fs_point("persist.batch.rename:post");
 
     Ok(())
 }
